@@ -20,7 +20,7 @@ import (
 
 var c04Positions = []string{"properties", "items", "items-tuple", "allOf", "anyOf", "oneOf", "not", "additionalProperties", "patternProperties", "dependencies", "additionalItems", "definitions"}
 
-var c04IDVariants = []string{"none", "absolute", "relfile", "reldir", "fragment", "absdir", "updir", "byid", "byid-uppercase-host", "byid-default-port"}
+var c04IDVariants = []string{"none", "absolute", "relfile", "reldir", "fragment", "absdir", "updir", "byid", "byid-uppercase-host", "byid-default-port", "malformed"}
 
 // the "byid" variants: every node names itself with an absolute id and the nodes refer to each other by a file name read in the scope of
 // that id; the documents at those ids are the nodes themselves. The authority of the id is written in normal form, with upper-case
@@ -41,6 +41,10 @@ func c04ID(variant string, node int) string {
 		return "/abs/dir/"
 	case "updir":
 		return "../up/"
+	}
+	if variant == "malformed" {
+		// ids that are not well-formed URIs: to be ignored, never to be tripped over
+		return []string{"2020-01:pet", "%zz", ":", "http://[::1/schema.json"}[node%4]
 	}
 	if b, ok := c04ByIDBase[variant]; ok {
 		return fmt.Sprintf("%ss%d.json", b, node)
